@@ -430,6 +430,15 @@ def cases(shard, nshards, seed, tier):
     for fn in ("tests/4qln.cif", "tests/1ehz-assembly-1.cif", "tests/1E7K_1_C.cif", "tests/1DFU_1_M-N.cif"):
         if mine():
             yield {"family": "pairs-from-the-other-reading", "file": fn, "ops": [], "gaps": False}
+    # a DSSR document for a structure whose chain names are suffixes of one another (A, BA; B, AB, CAB)
+    for chains in (["A", "BA"], ["B", "AB", "CAB"], ["A", "B"]):
+        if mine():
+            yield {"family": "adapter-dssr-suffix-chains", "file": "tests/1A1T_1_B.cif", "chains": chains, "ops": [], "gaps": False}
+    # the last nucleotide of the file is a ligand nucleotide listed under the first chain's name with a much lower number
+    # (gap detection must not look back from the first nucleotide to the last)
+    for fn in ("tests/1A1T_1_B.cif", "tests/1E7K_1_C.cif", "tests/1ATO.pdb"):
+        if mine():
+            yield {"family": "own-annotation-trailing-nucleotide-with-lower-number", "file": fn, "gaps": True, "ops": [{"op": "append-nucleotide", "number_below_first": 11}]}
     # size: two crossing stems with 50 / 520 (thorough: 1100) hairpins between them
     for nh in (50, 520) + ((1100,) if tier != "quick" else ()):
         if mine():
@@ -630,6 +639,50 @@ def _adapter_two_listings(case, rec):
         rec.check("adapter.mapping-is-of-its-own-listing", got == want, lambda: {"ctx": _cur["ctx"], "paired-lines": [sum(1 for l in t.splitlines() if not l.endswith(" 0")) for t in (got, want)]})
 
 
+def _dssr_suffix_chains(case, rec):
+    """Two copies of a hairpin as chains A and BA (one chain name is a suffix of the other), the pairs of both given as a
+    DSSR document: the mapping must be the mapping of exactly those pairs."""
+    import json
+    import tempfile
+
+    from rnapolis import adapter, annotator, tertiary
+    from rnapolis.common import ResidueAuth, ResidueLabel
+
+    base = gen3d.load(case["file"], 1)
+    res = []
+    for c, name in enumerate(case["chains"]):
+        off = np.array([0.0, 0.0, 120.0 * c])
+
+        def relabel(ri, r, name=name):
+            lab = ResidueLabel(name, r.label.number, r.label.name) if r.label is not None else None
+            auth = ResidueAuth(name, r.auth.number, r.auth.icode, r.auth.name) if r.auth is not None else None
+            return lab, auth
+
+        res += list(gen3d.rebuild(base, coord_fn=lambda ri, p, off=off: p + off, relabel=relabel).residues)
+    s = tertiary.Structure3D(res)
+    try:
+        pairs = [p for p in annotator.extract_base_interactions(s).basePairs]
+    except Exception as e:
+        rec.undecided("adapter.mapping-is-of-its-own-listing", f"annotation raised {type(e).__name__}")
+        return
+    doc = {"pairs": [{"nt1": p.nt1.full_name, "nt2": p.nt2.full_name, "LW": p.lw.value, "index": i + 1} for i, p in enumerate(pairs)]}
+    fd, path = tempfile.mkstemp(suffix=".json", prefix="vmon-c06-")
+    with os.fdopen(fd, "w") as fh:
+        json.dump(doc, fh)
+    _cur["ctx"] = {"file": case["file"], "route": "adapter (DSSR document)", "chains": case["chains"], "pairs-listed": len(pairs)}
+    rec.mark_nontrivial(bool(pairs))
+    try:
+        s2d, dbs, m = adapter.process_external_tool_output(s, path, adapter.ExternalTool.DSSR, None, False, False)
+        got = str(m.bpseq)
+        want = str(tertiary.Mapping2D3D(s, pairs, [], False).bpseq)
+    except Exception as e:
+        rec.violation("adapter.no-crash", {"ctx": _cur["ctx"], "exception": repr(e)[:300]}, mechanism=f"crash:{type(e).__name__}")
+        return
+    finally:
+        os.remove(path)
+    rec.check("adapter.mapping-is-of-its-own-listing", got == want, lambda: {"ctx": _cur["ctx"], "paired-lines": [sum(1 for l in t.splitlines() if not l.endswith(" 0")) for t in (got, want)]})
+
+
 def _long_range_knot(case, rec):
     """A chain of thousands of nucleotides (copies of real G and C residues) in which two stems that cross each other
     are separated by hundreds of hairpins; the pair list is given the way an external tool would (author ids only)."""
@@ -725,6 +778,8 @@ def run_case(case, rec):
         return _pairs_from_the_other_reading(case, rec)
     if case["family"] == "long-range-knot":
         return _long_range_knot(case, rec)
+    if case["family"] == "adapter-dssr-suffix-chains":
+        return _dssr_suffix_chains(case, rec)
     if case["family"] == "adapter-two-listings":
         return _adapter_two_listings(case, rec)
     from rnapolis import annotator, tertiary
